@@ -132,8 +132,17 @@ def run(case):
     dims = [int(math.floor(l / case['resolution'])) for l in L]
     if kind == 'rotate':
         B['matrix'] = A['matrix'] @ oracle.quat_to_rot(tf['quat']).T
-    elif kind in ('translate', 'translate-grid'):
-        if kind == 'translate-grid':
+    elif kind in ('translate', 'translate-grid', 'translate-site-to-face'):
+        if kind == 'translate-site-to-face':
+            # move one site to a signed distance eps x (its radius) from cell faces, so that its sphere straddles them
+            k = tf['site'] % S
+            rk = sitesys.radii_per_site(case)[k]
+            tau = np.zeros(3)
+            for i in range(3):
+                if tf['eps'][i] is not None:
+                    tau[i] = -A['site_frac'][k, i] + tf['eps'][i] * rk / L[i]
+            tau = tau - np.floor(tau)
+        elif kind == 'translate-grid':
             tau = np.array([tf['k'][i] % dims[i] / dims[i] for i in range(3)])
             roll = [tf['k'][i] % dims[i] for i in range(3)]
         else:
@@ -259,7 +268,7 @@ def run(case):
         flags.add('grid-skipped-ambiguous-size')  # floor(L/res) is decided by round-off in L (C08 assumption)
     elif a['volume'].shape != b['volume'].shape:
         fail('volume-shape', f'{a["volume"].shape} vs {b["volume"].shape}')
-    elif kind != 'translate':
+    elif kind not in ('translate', 'translate-site-to-face'):
         if near_voxel_edge(A['coords'][:, li], vdims) or near_voxel_edge(B['coords'][:, liB], vdims):
             flags.add('grid-skipped-sample-on-voxel-edge')
         else:
@@ -300,7 +309,7 @@ def invariance_cases(draw, tier):
     c['resolution'] = float(L.min() / draw(st.sampled_from([1.5, 2.5, 3.3, 5.1])))
     c['rdf'] = {'max_dist': float(draw(st.sampled_from([2.0, 3.5, 5.0]))), 'resolution': float(draw(st.sampled_from([0.25, 0.5, 0.7])))}
     c['cutoff'] = float(draw(st.sampled_from([1.0, 2.5, 4.0])))
-    kind = draw(st.sampled_from(['rotate', 'translate', 'translate-grid', 'perm-atoms', 'perm-sites']))
+    kind = draw(st.sampled_from(['rotate', 'translate', 'translate-grid', 'translate-site-to-face', 'perm-atoms', 'perm-sites']))
     tf = {'kind': kind}
     if kind == 'rotate':
         q = draw(st.tuples(*[st.floats(-1, 1)] * 4).filter(lambda q: sum(x * x for x in q) > 1e-2))
@@ -309,6 +318,9 @@ def invariance_cases(draw, tier):
         tf['tau'] = [draw(st.one_of(st.floats(0, 1, exclude_max=True), st.sampled_from([0.5, 0.25, 1e-9, 1 - 1e-9]))) for _ in range(3)]
     elif kind == 'translate-grid':
         tf['k'] = [draw(st.integers(0, 40)) for _ in range(3)]
+    elif kind == 'translate-site-to-face':
+        tf['site'] = draw(st.integers(0, 7))
+        tf['eps'] = [draw(st.sampled_from([None, -1.5, -0.9, -0.3, 0.0, 0.3, 0.9, 1.1, 1.3, 1.6, 2.0])) for _ in range(3)]
     else:
         tf['perm'] = draw(st.permutations(list(range(8))))
     c['transform'] = tf
